@@ -263,6 +263,9 @@ class Check:
 
     def run(self):
         os.makedirs(WORK, exist_ok=True)
+        # replays of earlier runs of this check are stale: every run writes its own
+        for f in glob.glob(os.path.join(VERIF, "evidence", "replays", self.prop + "-*")):
+            os.unlink(f)
         lean_ok = self.lean()
         cov = {}
         kind = self.cfg.get("kind", "history")
